@@ -97,6 +97,7 @@ type Result struct {
 	DistHist [17]int
 	// IntoDict: some match reached into the preset dictionary
 	IntoDict bool
+	MarkBits []int64
 }
 
 // EndByte is the number of whole input bytes the stream occupies.
@@ -114,6 +115,10 @@ type Options struct {
 	MaxOut int
 	// KeepBlocks bounds the number of per-block traces kept (default 64).
 	KeepBlocks int
+	// Marks: ascending output offsets; Result.MarkBits[i] is the input bit
+	// position just after the symbol (or stored byte) that made the output
+	// reach Marks[i].
+	Marks []int
 }
 
 type errStop struct {
@@ -122,13 +127,21 @@ type errStop struct {
 }
 
 type state struct {
-	in    []byte
-	pos   int64 // next bit
-	out   []byte
-	dictN int
-	opt   Options
-	res   *Result
-	cur   *Block
+	in       []byte
+	pos      int64 // next bit
+	out      []byte
+	dictN    int
+	opt      Options
+	res      *Result
+	cur      *Block
+	nextMark int
+}
+
+func (s *state) mark() {
+	for s.nextMark < len(s.opt.Marks) && len(s.out)-s.dictN >= s.opt.Marks[s.nextMark] {
+		s.res.MarkBits = append(s.res.MarkBits, s.pos)
+		s.nextMark++
+	}
 }
 
 func (s *state) bit() int {
@@ -251,6 +264,9 @@ func (s *state) codes(lit, dist *huff) {
 			s.out = append(s.out, byte(sym))
 			b.Literals++
 			s.res.Literals++
+			if s.opt.Marks != nil {
+				s.mark()
+			}
 			continue
 		}
 		if sym == 256 {
@@ -286,6 +302,9 @@ func (s *state) codes(lit, dist *huff) {
 		}
 		b.Matches++
 		s.res.Matches++
+		if s.opt.Marks != nil {
+			s.mark()
+		}
 		if length > b.MaxLen {
 			b.MaxLen = length
 		}
@@ -348,6 +367,9 @@ func (s *state) stored() {
 		}
 		s.out = append(s.out, s.in[s.pos>>3])
 		s.pos += 8
+		if s.opt.Marks != nil {
+			s.mark()
+		}
 	}
 }
 
